@@ -37,7 +37,7 @@ CHECKS["C20"] = dict(
         dict(pkg="server", name="C20_lockqueue", bound="all programs of 6 operations over 8 opcodes; constructor parameters base 1..2, nodes 1..3, size 1..2", flags=["-witness", "100000"], reach=["end"]),
         dict(pkg="server", name="C20_deques", bound="LockQueue, LockCommandQueue and LockManagerQueue behind one adaptor: all programs of 5 operations over 10 opcodes (Push, Pop, PopRight, PushLeft, Head+Tail, Resize, Restructuring, Reset, Rellac on a drained queue, iteration); constructor parameters (1,3,2) and (2,2,1)", flags=["-witness", "50000"], reach=["end"]),
         dict(pkg="server", name="C20_ring", bound="LockManagerRingQueue and LockManagerPriorityRingQueue (capacity 1..2): all programs of 5 operations (Push with priority 0..2, Pop, Head+MaxPriority+iteration) against a FIFO / stable priority queue", flags=["-witness", "20000"], reach=["end"]),
-        dict(pkg="server", name="C20_waitqueue", bound="LockManagerWaitQueue pre-filled with 0 / 7 / 8 / 9 / 150 / 300 waiters (inline slice, its compaction and growth, overflow ring), 0 / 1 / 5 popped, then every program of 4 operations from {push priority 0, push priority 1, pop, observe head+length+iteration, switch to priority mode (RePushPriorityRingQueue)} against a FIFO / stable priority queue", flags=["-witness", "500"], reach=["end"]),
+        dict(pkg="server", name="C20_waitqueue", bound="LockManagerWaitQueue pre-filled with 0 / 7 / 8 / 9 / 150 / 300 waiters (inline slice, its compaction and growth, overflow ring), 0 / 1 / 5 / all popped (0 / 5 for the two long fills), none / the first / the middle queued entry already answered (timeouted: the implementation may drop it at any time; the comparison is over live entries), then every program of 4 operations from {push priority 0, push priority 1, pop, observe head+length+iteration, switch to priority mode (RePushPriorityRingQueue), Reset} against a FIFO / stable priority queue", flags=["-witness", "500"], reach=["end"]),
         dict(pkg="server", name="C20_holdqueue", bound="LockManagerLockQueue pre-filled with 0 / 5 / 6 / 7 / 140 / 300 holders (inline slice, compaction, scale queue + id map), then every program of 4 operations from {push, pop first live, release an entry in place (first / middle / last), iterate live entries, GetLock of a live entry}", flags=["-witness", "1000"], reach=["end"]),
         dict(pkg="server", name="C20_lockqueue7", bound="as C20_lockqueue with 7 operations", flags=["-witness", "1000000"], reach=["end"], thorough_only=True),
         dict(pkg="server", name="C20_deques6", bound="as C20_deques with 6 operations and constructor parameters (1,1,1), (1,3,2), (2,2,1), (2,3,2)", flags=["-witness", "1000000"], reach=["end"], thorough_only=True),
@@ -407,3 +407,5 @@ _quick("C01", "C01_pooled", _POOLED, ["-witness", "500"], reach=["end", "grant",
 _quick("C03", "C01_pooled", _POOLED, ["-witness", "500"], reach=["end", "grant", "updated", "re-entered"])
 _quick("C19", "C01_pooled", _POOLED + " (server side of RLock / Semaphore re-entry: a connection's next request must not rewrite a hold it took earlier)", ["-witness", "500"], reach=["end", "re-entered"])
 _quick("C02", "C02_bigcancel", "exclusive holder + N in {3,150,300} queued requests (inline slice, its growth, overflow ring), none or one already served; a cancel-wait UNLOCK names the first / second / middle / 256th / 257th / 258th / last queued request: LOCKED_ERROR + UNLOCK_ERROR, WaitCount - 1, request gone; a second cancel is refused and changes nothing; three hand-overs served in arrival order without the cancelled request", ["-witness", "5"], reach=["end", "cancelled"])
+
+_quick("C04", "C04_handover", "a key that is never idle: an exclusive hold handed over 20 times, 1 / 2 / alternately 1 and 2 new requests queued before every hand-over, in every third round none / the newest / the oldest queued request cancelled first; every hand-over grants exactly the oldest live queued request, nothing is left queued", ["-witness", "1"])
